@@ -464,5 +464,6 @@ func Run(c *ev.Ctx) int {
 	c.Assume("suffix ranges (-n), sign-prefixed / blank-padded numbers, >64-bit numbers and unit case variants are not judged strictly (either honoured correctly or ignored)")
 	laneDirect(c)
 	laneE2E(c)
-	return c.Finish("lane direct: ParseGetObjectRange(size, header) vs reference parser over a fixed junk list x 7 sizes plus PRNG headers; lane e2e: real GET/HEAD with Range on objects of 5 sizes; a case is distinct by (lane, method, size class, range-form class incl. expected outcome)", 20)
+	laneGated(c)
+	return c.Finish("lane gated: a ranged GET paused at get.afterStat / get.afterAttrs / get.afterOpen while the key is overwritten with an object of another size, the answer must describe one of the two objects throughout; lane direct: ParseGetObjectRange(size, header) vs reference parser over a fixed junk list x 7 sizes plus PRNG headers; lane e2e: real GET/HEAD with Range on objects of 5 sizes; a case is distinct by (lane, method, size class, range-form class incl. expected outcome)", 20)
 }
